@@ -534,7 +534,7 @@ func genQuery(r *vh.Rand, pts []point, dups, flushed bool) *queryJ {
 	if r.Chance(30) {
 		q.Ivl = []int{30, 60, 60, 120}[r.Intn(4)]
 	}
-	if len(q.Group) > 0 && r.Chance(20) {
+	if orderByStatements && len(q.Group) > 0 && r.Chance(20) {
 		// order by a selected plain field of an order-insensitive type, keep the best 1-3 groups
 		for i, it := range q.Items {
 			if it.Func == 0 && it.Field <= 2 {
@@ -596,6 +596,9 @@ func genLayout(r *vh.Rand) layoutJ {
 // lastFirstAtStorageInterval: statements with a last/first item do not group by time (C12); the query worlds of C11
 // switch it off.
 var lastFirstAtStorageInterval = true
+
+// orderByStatements: a fifth of the group-by statements get order by ... limit (C12 only).
+var orderByStatements = true
 
 var refLayout = layoutJ{NumShards: 1, Place: []int{0}, Nodes: 1}
 
